@@ -52,6 +52,10 @@ def cases(tier, seed):
         # the same model object serves another estimand first: the turnout intervals (checked against the reference above)
         # must come out the same when turnout is the second estimand of the request
         out.append({"pattern": list(pat), "counts": list(cs), "outstanding": [True] * len(pat), "seed": seed, "after_other_estimand": True})
+    # a silent state: state B has outstanding units only (no reporting unit at all, hence no calibration unit)
+    for pat, css in ((("A", "B"), [(9,), (10,), (11,)]), (("A", "A", "B"), [(10, 9), (0, 10), (11, 11), (9, 1)])):
+        for cs in css:
+            out.append({"pattern": list(pat), "counts": list(cs) + [0], "outstanding": [True] * len(pat), "seed": seed, "silent_state": True})
     return out
 
 
@@ -88,8 +92,9 @@ def build(case):
     for gi, g in enumerate(groups):
         for _ in range(g["cal"]):
             pos_group[next(it)] = gi
+    hosts = [gi for gi, g in enumerate(groups) if not (case.get("silent_state") and g["state"] == "BB")]
     for j, p in enumerate(train_pos):
-        pos_group[p] = j % len(groups)
+        pos_group[p] = hosts[j % len(hosts)]
     rng = random.Random(seed * 7919 + C)
     units = []
     for p in range(n):
@@ -143,6 +148,8 @@ def evaluate(case):
     cfg = E.make_cfg(pi_method="gaussian", estimands=["turnout"], alphas=alphas, aggregates=["postal_code", "county_fips", "unit"], features=[], model_parameters={"beta": beta} if beta != 1 else {})
     if beta != 1:
         cov["non_default_beta_runs"] += 1
+    if case.get("silent_state"):
+        cov["silent_state_structures"] += 1
     res = E.run_estimates(units, cfg, keep_client=True)
     if "error" in res:
         viol("run-raised", f"{res['error']} {res.get('tb', '')[-300:]}")
@@ -170,7 +177,7 @@ def evaluate(case):
         q = (3 + alpha) / 4
         for level, tname, keyf in (("postal_code", "state_data", lambda u: (u["postal"],)), ("county_fips", "county_data", lambda u: (u["postal"], u["county"]))):
             rows = {}
-            for r in E.tab_rows(res["ok"][tname]):
+            for r in E.tab_rows_num(res["ok"][tname]):
                 key = (r["postal_code"],) if level == "postal_code" else (r["postal_code"], r["county_fips"])
                 if key in rows:
                     viol("group-twice", f"{tname}: group {key} appears twice")
@@ -249,4 +256,4 @@ def evaluate(case):
     return {"violations": V, "cov": dict(cov), "outcome": sha({k: v["rows"] for k, v in res["ok"].items() if k != "unit_data"})[:16], "nontrivial": fallback}
 
 
-REQUIRED_COUNTERS = {"group_intervals_recomputed": 500, "county_fips_uses_own": 50, "county_fips_uses_state": 50, "county_fips_uses_all": 50, "postal_code_uses_own": 50, "postal_code_uses_all": 20, "non_default_beta_runs": 10, "intervals_compared_as_second_estimand": 10}
+REQUIRED_COUNTERS = {"group_intervals_recomputed": 500, "county_fips_uses_own": 50, "county_fips_uses_state": 50, "county_fips_uses_all": 50, "postal_code_uses_own": 50, "postal_code_uses_all": 20, "non_default_beta_runs": 10, "intervals_compared_as_second_estimand": 10, "silent_state_structures": 7}
